@@ -108,6 +108,11 @@ Proof.
     destruct (respond h2 (EvCallT vf vo [va])) eqn:R;
       [exists (Ret v)|exists (Thr v)]; exists (h2 ++ [EvCallT vf vo [va]]); intros; rewrite E1; simpl;
       unfold fire; rewrite RG; simpl; rewrite E2; simpl; rewrite R; reflexivity.
+  - (* property read *)
+    destruct (IHe Hs h t) as (o1 & h1 & E1).
+    destruct o1 as [vo|vo]; [|exists (Thr vo), h1; intros; rewrite E1; reflexivity].
+    destruct (fire_tenv (EvGet vo m) h1) as (o2 & h2 & E2).
+    exists o2, h2. intros. rewrite E1. cbn [bind]. apply E2.
   - (* template, one substitution *)
     destruct (IHe Hs h t) as (o1 & h1 & E1).
     destruct o1 as [v|v]; [|exists (Thr v), h1; intros; rewrite E1; reflexivity].
@@ -297,6 +302,7 @@ Proof.
   - cbn [rw_root Sem.rw]. rewrite IHe. destruct (rw e 0) as [x' c1]. reflexivity.
   - cbn [rw_root]. rewrite plus_true. reflexivity.
   - cbn [rw_root]. rewrite plus_true. reflexivity.
+  - cbn [rw_root Sem.rw]. rewrite IHe. destruct (rw e 0) as [x' c1]. reflexivity.
 Qed.
 
 Lemma rw_addasgv_eq x e c : rw (AddAsgV x e) c = let '(e', c1) := rw e c in rw_addasg_v x e' c1.
@@ -418,6 +424,8 @@ Proof.
     + unfold rw_mcall in Hk. destruct (is_lit o'); destruct (arg_act a'); simpl in Hk;
         destruct Hk as [Hk | (a & b & Hk)]; discriminate.
     + simpl in Hk. destruct Hk as [Hk | (a & b & Hk)]; discriminate.
+  - (* property read: the result is a property read *)
+    cbn [Sem.rw] in Hk. destruct (rw e c) as [o' c1]. simpl in Hk. destruct Hk as [Hk | (a & b & Hk)]; discriminate.
   - (* template: the result is a template, a hook call or an injected sequence *)
     rewrite rw_tpl1_eq in Hk. destruct (is_lit e).
     + simpl in Hk. destruct Hk as [Hk | (a & b & Hk)]; discriminate.
@@ -925,6 +933,17 @@ Proof.
       destruct (respond h2 (EvCallT vf vo [va])) eqn:RC;
         [rewrite (fire_ret t RC) in E; rewrite (fire_ret t2 RC) | rewrite (fire_thr t RC) in E; rewrite (fire_thr t2 RC)];
         inversion E; subst o h'; eexists; (split; [reflexivity|frame_tac]).
+  - (* property read: congruence *)
+    pose proof (IHe Hs c) as I1. cbn [Sem.rw]. destruct (rw e c) as [o' c1] eqn:Ro. simpl in I1.
+    assert (Hc1 : c <= c1) by (destruct (I1 h t); auto).
+    destruct (src_tenv e Hs h t) as (o1 & h1 & E1).
+    cbn [fst snd]. split; [lia|]. intros o h' E.
+    destruct (I1 h t) as (_ & K1). destruct (K1 o1 h1 E1) as (t1 & El & F1).
+    rewrite eval_get, El. specialize (E t). rewrite eval_get, E1 in E.
+    destruct o1 as [vo|vo]; cbn [bind] in *; [|inversion E; subst o h'; eexists; split; [reflexivity|frame_tac]].
+    destruct (respond h1 (EvGet vo m)) as [vf|vf] eqn:RG;
+      [rewrite (fire_ret t RG) in E; rewrite (fire_ret t1 RG) | rewrite (fire_thr t RG) in E; rewrite (fire_thr t1 RG)];
+      inversion E; subst o h'; eexists; (split; [reflexivity|frame_tac]).
   - (* template with one substitution *)
     rewrite rw_tpl1_eq. destruct (is_lit e) eqn:LE.
     + cbn [fst snd]. split; [lia|]. intros o h' E. exists t. split; [apply E | apply frame_refl].
